@@ -6,6 +6,17 @@ recogniser the driver runs — accepts exactly that grammar; the cells the write
 are in it. Core Lean only. -/
 namespace CryoCat.C02
 
+/-- the characters strictly between the blank and NEL (all printable ASCII) are not white space -/
+theorem isWs_false_of_ascii {c : Char} (h1 : 0x20 < c.toNat) (h2 : c.toNat < 0x85) : isWs c = false := by
+  rw [Bool.eq_false_iff]
+  intro h
+  simp only [isWs, List.any_eq_true] at h
+  obtain ⟨r, hr, h⟩ := h
+  simp only [wsRanges, List.mem_cons, List.mem_nil_iff, or_false] at hr
+  simp only [Bool.and_eq_true, decide_eq_true_eq] at h
+  rcases hr with rfl | rfl | rfl | rfl | rfl | rfl | rfl | rfl | rfl | rfl | rfl <;> dsimp only at h <;> omega
+
+
 /-! ### the grammar -/
 
 def AllDigits (d : Word) : Prop := ∀ c ∈ d, isDigit c = true
